@@ -53,10 +53,17 @@ def real_parse(text):
 
 def mutate(rng, toks):
     toks = list(toks)
-    k = rng.choice(['del', 'ins', 'dup', 'swap', 'append', 'append', 'truncate'])
+    k = rng.choice(['del', 'ins', 'dup', 'swap', 'append', 'append', 'truncate', 'sep', 'sep'])
     extra = [('BracketFinishToken', ')'), ('BracketStartToken', '('), ('SeparatorToken', ','), ('PlusOperatorToken', '+'), ('LiteralToken', '1'),
              ('LiteralToken', '"q"'), ('CellIdentifierToken', 'A1'), ('PercentToken', '%'), ('MultiplicationOperatorToken', '*'), ('EqOperatorToken', '=')]
     i = rng.randrange(len(toks))
+    if k == 'sep':
+        # a separator where no argument follows or precedes it: before a closing bracket, after an opening one, or doubled
+        spots = [j for j, t in enumerate(toks) if t[0] == 'BracketFinishToken'] + [j + 1 for j, t in enumerate(toks) if t[0] in ('BracketStartToken', 'SeparatorToken')]
+        if spots:
+            toks.insert(rng.choice(spots), ('SeparatorToken', rng.choice([',', ';'])))
+            return toks
+        k = 'append'
     if k == 'del' and len(toks) > 1:
         del toks[i]
     elif k == 'ins':
@@ -133,6 +140,7 @@ def run(tier, seed):
     lexmodel.run_lexer_streams(chk, tier, [t for t, _ in texts[:600 if tier == 'quick' else 6000]])
     laws(chk, tier)
     arity_law(chk)
+    separator_law(chk)
     glue_law(chk, [t for t, valid in texts if valid], tier)
     sensitivity_law(chk, [t for t, valid in texts if valid], tier)
     return chk.finish()
@@ -194,6 +202,29 @@ def arity_law(chk):
                 if out.startswith('A '):
                     chk.violation({'why': 'a function call with more arguments than the function has is accepted (the extra arguments can only be ignored)', 'formula': wrap,
                                    'tree': out[:300], 'stream': 'arity-law'})
+
+
+def separator_law(chk):
+    """a separator must separate two arguments: none may trail, lead or be doubled in the argument list of any function"""
+    calls = ['SUM(1,2)', 'MAX(A1:A2,3)', 'MIN(1,2)', 'AVERAGE(1,2)', 'COUNT(1,2)', 'COUNTBLANK(A1:B2)', 'AND(TRUE,FALSE)', 'OR(TRUE,FALSE)', 'CONCATENATE("a","b")',
+             'IFS(TRUE,2)', 'IF(TRUE,1,2)', 'SUMIFS(A1:A2,B1:B2,1)', 'COUNTIFS(A1:A2,1)', 'VLOOKUP(1,A1:B2,2)', 'MATCH(1,A1:A2,0)', 'LEFT("ab",1)', 'DATE(2024,1,2)',
+             'INDEX(A1:B2,1,1)', 'NETWORKDAYS(A1,A2)', 'ADDRESS(1,2,4)']
+    for call in calls:
+        inner = call[:-1]
+        head = call[:call.index('(') + 1]
+        args = inner[len(head):]
+        first_sep = args.index(',') if ',' in args else None
+        variants = [inner + ',)', inner + ';)', head + ',' + args + ')', inner + ',,)']
+        if first_sep is not None:
+            variants.append(head + args[:first_sep] + ',,' + args[first_sep + 1:] + ')')
+        for v in variants:
+            for wrap in ('=' + v, '=1+' + v, '=IF(TRUE,' + v + ',0)'):
+                out, _, _ = real_parse(wrap)
+                chk.count('law:separator:' + out.split(' ')[0])
+                chk.seen(('separator', wrap))
+                if out.startswith('A ') and not (call.startswith(('ROUND', 'IF(')) ):
+                    chk.violation({'why': 'a separator with no argument after / before it is accepted (it can only be dropped)', 'formula': wrap, 'tree': out[:300],
+                                   'stream': 'separator-law'})
 
 
 def glue_law(chk, texts, tier):
